@@ -31,6 +31,9 @@ def validate(ctx, spec: str, module: str, cfg: str, traces: list, *, files: dict
              timeout: float = 900, dfs: bool = False, workers="auto", extra_env: dict | None = None,
              max_rounds: int = 25, diagnose: bool = True) -> list:
     n = len(traces)
+
+    def events(t):
+        return t["events"] if isinstance(t, dict) else t
     verdicts = [None] * n
     if n == 0:
         return verdicts
@@ -56,7 +59,7 @@ def validate(ctx, spec: str, module: str, cfg: str, traces: list, *, files: dict
             st = {k: v for k, v in r.trace[-1]["state"].items()}
             verdicts[gi] = {"ok": False, "reason": "invariant:%s" % (r.violated[0] if r.violated else "?"),
                             "prefix": st.get("l", 0) - 1, "state": st,
-                            "event": traces[gi][st.get("l", 1) - 2] if st.get("l", 1) >= 2 and st.get("l", 1) - 2 < len(traces[gi]) else None}
+                            "event": events(traces[gi])[st.get("l", 1) - 2] if st.get("l", 1) >= 2 and st.get("l", 1) - 2 < len(events(traces[gi])) else None}
             live.remove(gi)
             if rounds >= max_rounds:
                 raise MachineryError("trace validation: too many invariant-violating traces (%d rounds)" % rounds)
@@ -79,7 +82,7 @@ def validate(ctx, spec: str, module: str, cfg: str, traces: list, *, files: dict
                 if d.error in ("invariant", "property"):
                     v["reason"] = "invariant:%s" % (d.violated[0] if d.violated else "?")
                 v["prefix"] = max(0, mx - 1)
-                v["event"] = traces[gi][mx - 1] if 0 < mx <= len(traces[gi]) else "<end of trace: final condition not met>"
+                v["event"] = events(traces[gi])[mx - 1] if 0 < mx <= len(events(traces[gi])) else "<end of trace: final condition not met>"
             verdicts[gi] = v
     ctx.states += states
     ctx.count("trace_validation_states", states)
